@@ -41,7 +41,7 @@ QUICK_FAMS = ['II', 'OO', 'LF', 'fs', 'QO', 'OI', 'UU', 'IO']
 
 
 def must_see(tier):
-    m = {'big-container': 10, 'failures-injected': 1500, 'outcome:MemoryError': 1000,
+    m = {'big-container': 10, 'multiunion-huge': 1, 'failures-injected': 1500, 'outcome:MemoryError': 1000,
          'failures-injected:stored': 300, 'stored-operand': 20,
          'commit-after-failure-read-back': 100,
          'outcome:unchanged': 300, 'sort-buffer-fallback': 1}
@@ -357,6 +357,12 @@ def run_container(fam, kind, rng, rec, ci, arm, count):
                         list(bk | set(okeys)))))
     if fam.has_multiunion:
         n_big = rng.choice([5, 40, 900])
+        if big and ci % 12 == 3:
+            # far beyond the sizes at which the sort switches algorithms:
+            # when the radix sort's work area cannot be had, the fallback
+            # sorts ALL of it (its recursion / work stack has to hold)
+            n_big = 150000
+            rec.ev('multiunion-huge')
         lo = min(uni)
         big = list(dict.fromkeys(
             [k for k in uni] + [lo + 3 * i for i in range(n_big)
